@@ -299,7 +299,37 @@ func breakSpec(r *simkit.Rand, spec string) string {
 	return strings.Join(fs, " ")
 }
 
-var c20Zones = []string{"UTC", "America/New_York", "Australia/Sydney", "Asia/Kolkata"}
+var c20Zones = []string{"UTC", "America/New_York", "Australia/Sydney", "Asia/Kolkata", "Europe/Berlin", "America/Sao_Paulo"}
+
+var (
+	c20TransMu sync.Mutex
+	c20Trans   = map[string][]time.Time{}
+)
+
+// c20Transitions: the instants (UTC, to the hour) between 2000 and 2004 at which the
+// zone's UTC offset changes.
+func c20Transitions(zone string) []time.Time {
+	c20TransMu.Lock()
+	defer c20TransMu.Unlock()
+	if t, ok := c20Trans[zone]; ok {
+		return t
+	}
+	var out []time.Time
+	loc, err := time.LoadLocation(zone)
+	if err == nil {
+		t := c20Base
+		_, prev := t.In(loc).Zone()
+		for t.Year() < 2005 {
+			t = t.Add(time.Hour)
+			if _, off := t.In(loc).Zone(); off != prev {
+				out = append(out, t)
+				prev = off
+			}
+		}
+	}
+	c20Trans[zone] = out
+	return out
+}
 
 var c20Base = time.Date(2000, 1, 1, 0, 0, 0, 0, time.UTC)
 
@@ -322,6 +352,46 @@ func (c20) Generate(r *simkit.Rand, tier string) any {
 		c.Jobs = append(c.Jobs, j)
 	}
 	// start: shortly before a match of job 0 (so that sparse specs are observed), or at special instants
+	if r.Chance(0.15) {
+		// a daylight-saving transition day (23 or 25 hours long) in job 0's zone, with a spec
+		// whose hour field selects the hours around the transition and a day field that needs
+		// date arithmetic ("L", "xL", "x#n", a plain day) - observed from the evening before
+		// until the day after
+		zone := simkit.Pick(r, "America/New_York", "Australia/Sydney", "Europe/Berlin", "Europe/Berlin", "America/Sao_Paulo")
+		tr := c20Transitions(zone)
+		if len(tr) > 0 {
+			at := tr[r.Intn(len(tr))]
+			loc, _ := time.LoadLocation(zone)
+			lt := at.In(loc)
+			day := simkit.Pick(r, "*", "*", "L", "L", fmt.Sprint(lt.Day()), fmt.Sprint(lt.Add(-20*time.Hour).Day()))
+			wday := "*"
+			if r.Chance(0.3) {
+				day = "*"
+				wd := int(lt.Weekday())
+				if wd == 0 {
+					wd = 7
+				}
+				wday = simkit.Pick(r, fmt.Sprint(wd), fmt.Sprintf("%dL", wd), fmt.Sprintf("%d#%d", wd, (lt.Day()-1)/7+1))
+			}
+			hour := simkit.Pick(r, "0", "23", "0,23", "1", "2", "3", "0-3", "*", "22-23")
+			minute := simkit.Pick(r, "0", "30", "*/15", "59")
+			c.Jobs[0].Spec = strings.Join([]string{minute, hour, day, "*", wday}, " ")
+			c.Jobs[0].Zone = zone
+			c.Jobs[0].Valid = true
+			c.Jobs[0].AtStart = true
+			c.Jobs[0].AddAtMin = 0
+			c.WindowMin = simkit.Pick(r, 2880, 3600)
+			c.StartOffsetMin = int(at.Sub(c20Base).Minutes()) - r.Range(24*60, 30*60)
+			if c.StartOffsetMin < 0 {
+				c.StartOffsetMin = 0
+			}
+			for i, n := 0, r.Range(0, 2); i < n; i++ {
+				c.Ops = append(c.Ops, C20Op{Kind: simkit.Pick(r, "disable", "enable", "remove", "disable"), Job: r.Intn(nj), AtMin: r.Range(1, c.WindowMin-1)})
+			}
+			sort.Slice(c.Ops, func(i, j int) bool { return c.Ops[i].AtMin < c.Ops[j].AtMin })
+			return c
+		}
+	}
 	switch r.Intn(5) {
 	case 0:
 		// around month ends, 29 Feb 2000, DST transitions 2000-2003 (US: first Sunday of April / last of October; AU: last Sunday of March / October)
